@@ -178,6 +178,15 @@ mut("C03 momentum spanning tested on any component vertex", [(PRE, "            
 mut("C03 mass spanning with >=", [(PRE, "let is_mass_spanning = num_massive_edges == self.num_massive_edges;", "let is_mass_spanning = num_massive_edges + 1 >= self.num_massive_edges;")], C03="C03-e")
 mut("C03 N: conjunction commuted", [(PRE, "        is_mass_spanning && is_momentum_spanning", "        is_momentum_spanning && is_mass_spanning")], C03=None, C05=None)
 
+# ---- C03-g ----
+mut("C03 adjacency ignores the right endpoint of the second edge", [(PRE, "            || self.topology[edge_id_1].contains_vertex(self.topology[edge_id_2].right)", "            || self.topology[edge_id_1].contains_vertex(self.topology[edge_id_2].left)")], C03="C03-g")
+mut("C03 contains_vertex compares left twice", [(PRE, "        self.left == vertex || self.right == vertex", "        self.left == vertex || self.left == vertex")], C03="C03-")
+mut("C03 neighbours searched in the complement test (and for or)", [(PRE, "        self.topology[edge_id_1].contains_vertex(self.topology[edge_id_2].left)\n            ||", "        self.topology[edge_id_1].contains_vertex(self.topology[edge_id_2].left)\n            &&")], C03="C03-g")
+mut("C03 component id built with xor", [(PRE, "            id |= 1 << edge_id;", "            id ^= 1 << edge_id;")], C03="C03-g")
+mut("C03 component id shifts by edge+1", [(PRE, "            id |= 1 << edge_id;", "            id |= 1 << (edge_id + 1);")], C03="C03-g")
+mut("C03 N: adjacency with operands commuted", [(PRE, "        self.topology[edge_id_1].contains_vertex(self.topology[edge_id_2].left)\n            || self.topology[edge_id_1].contains_vertex(self.topology[edge_id_2].right)", "        self.topology[edge_id_2].contains_vertex(self.topology[edge_id_1].right)\n            || self.topology[edge_id_2].contains_vertex(self.topology[edge_id_1].left)")], C03=None)
+mut("C03 N: contains_vertex via != and negation", [(PRE, "        self.left == vertex || self.right == vertex", "        !(self.left != vertex && vertex != self.right)")], C03=None, C05=None)
+
 # ---- C06-d ----
 mut("C06 p_e divides by omega of the parent graph", [(PRE, "                / uniform.from_f64(self.table[graph_without_edge.id].generalized_dod);", "                / uniform.from_f64(self.table[subgraph.id].generalized_dod);")], C06="C06-d")
 mut("C06 p_e numerator from the parent graph", [(PRE, "            let p_e = uniform.from_f64(self.table[graph_without_edge.id].j_function)", "            let p_e = uniform.from_f64(self.table[subgraph.id].j_function)")], C06="C06-d")
@@ -262,3 +271,10 @@ mut("C18 N: BTreeMap field added", [(PRE, "    pub cached_factor: f64,\n}", "   
 mut("C18 hand-written Serialize for the table entry", [(PRE, "#[derive(Debug, Clone, Copy, PartialEq, Serialize, Deserialize)]\npub struct TropicalSubgraphTableEntry {", "#[derive(Debug, Clone, Copy, PartialEq, Deserialize)]\npub struct TropicalSubgraphTableEntry {"), (PRE, "/// The list of data for all subgraphs, indexed using the TropicalSubGraphId", "impl Serialize for TropicalSubgraphTableEntry {\n    fn serialize<S: serde::Serializer>(&self, s: S) -> Result<S::Ok, S::Error> {\n        use serde::ser::SerializeStruct;\n        let mut st = s.serialize_struct(\"TropicalSubgraphTableEntry\", 4)?;\n        st.serialize_field(\"loop_number\", &self.loop_number)?;\n        st.serialize_field(\"mass_momentum_spanning\", &self.mass_momentum_spanning)?;\n        st.serialize_field(\"j_function\", &(self.j_function as f32))?;\n        st.serialize_field(\"generalized_dod\", &self.generalized_dod)?;\n        st.end()\n    }\n}\n\n/// The list of data for all subgraphs, indexed using the TropicalSubGraphId")], C18="C18-a")
 
 MUTATIONS = M
+mut("N: subgraph-id bit operations with commuted operands", [
+    (PRE, "            id: self.id ^ (1 << edge_id),", "            id: (1 << edge_id) ^ self.id,"),
+    (PRE, "        self.id == 0\n", "        0 == self.id\n"),
+    (PRE, "        self.id & (1 << edge_id) != 0", "        0 != (1 << edge_id) & self.id"),
+    (PRE, "        self.id.count_ones() == 1", "        1 == self.id.count_ones()"),
+    (PRE, "            id |= 1 << edge_id;", "            id = (1 << edge_id) | id;"),
+], **ALLP)
